@@ -132,6 +132,19 @@ def liftW (s : LW) (r : Out Win) : Out LW :=
   | .ok w => .ok { s with win := w }
   | .err k => .err k | .panic m => .panic m | .fuel => .fuel
 
+/-- `write_bytes` / `write_bytes_vec` / `write_faststr` / `write_string` after the caller decided whether
+the zero-copy branch applies: `write_i32(len)`, then either `zero_copy_len += len; advance_mut(index);
+trans.insert(payload)` and the window re-derived, or `copy_nonoverlapping`. -/
+def strWrite (takes : Bool) (s : LW) (bs : Bytes) : Out LW :=
+  match put s.win (be 4 (toS 4 bs.length)) with
+  | .ok w =>
+    if takes then
+      match advanceMut { s with win := w, zlen := s.zlen + bs.length } w.idx with
+      | .ok s' => .ok (insertZc s' bs)
+      | .err k => .err k | .panic m => .panic m | .fuel => .fuel
+    else liftW s (put w bs)
+  | .err k => .err k | .panic m => .panic m | .fuel => .fuel
+
 open Linked in
 /-- one call on `TBinaryUnsafeOutputProtocol<&mut LinkedBytes>`; `api` says which of
 `write_bytes` / `write_bytes_vec` / `write_faststr` writes a binary value. -/
@@ -141,18 +154,15 @@ def ulwOp (zc : Bool) (thr : Nat) (api : StrApi) (s : LW) : Op → Out LW
     | .ok w => advanceMut { s with win := w } w.idx
     | .err k => .err k | .panic m => .panic m | .fuel => .fuel
   | .msgBegin name mt seq =>
-    match putAll s.win (chunks (.msgBegin name mt seq)) with
-    | .ok w => advanceMut { s with win := w } w.idx
-    | .err k => .err k | .panic m => .panic m | .fuel => .fuel
-  | .bytes bs =>
-    match put s.win (be 4 (toS 4 bs.length)) with
-    | .ok w =>
-      if takesZc false zc thr api bs.length then
-        match advanceMut { s with win := w, zlen := s.zlen + bs.length } w.idx with
-        | .ok s' => .ok (insertZc s' bs)
+    -- write_i32(version); write_faststr(name) (its own zero-copy branch); write_i32(seq); advance_mut(index)
+    match liftW s (put s.win (encFixed .be 4 ((0x80010000 ||| mt) % 2 ^ 32))) with
+    | .ok s1 => match strWrite (takesZc false zc thr .faststr name.length) s1 name with
+      | .ok s2 => match liftW s2 (put s2.win (be 4 seq)) with
+        | .ok s3 => advanceMut s3 s3.win.idx
         | .err k => .err k | .panic m => .panic m | .fuel => .fuel
-      else liftW s (put w bs)
+      | .err k => .err k | .panic m => .panic m | .fuel => .fuel
     | .err k => .err k | .panic m => .panic m | .fuel => .fuel
+  | .bytes bs => strWrite (takesZc false zc thr api bs.length) s bs
   | o => liftW s (putAll s.win (chunks o))
 
 def ulwRun (zc : Bool) (thr : Nat) (api : Linked.StrApi) : LW → List Op → Out LW
@@ -164,6 +174,7 @@ def ulwRun (zc : Bool) (thr : Nat) (api : Linked.StrApi) : LW → List Op → Ou
 /-- bytes an op copies into the window (everything except a zero-copied payload). -/
 def copyLen (zc : Bool) (thr : Nat) (api : Linked.StrApi) : Op → Nat
   | .bytes bs => if Linked.takesZc false zc thr api bs.length then 4 else 4 + bs.length
+  | .msgBegin name _ _ => 4 + (if Linked.takesZc false zc thr .faststr name.length then 4 else 4 + name.length) + 4
   | o => Len.binOp o
 
 def copyLenAll (zc : Bool) (thr : Nat) (api : Linked.StrApi) (ops : List Op) : Nat :=
@@ -171,6 +182,7 @@ def copyLenAll (zc : Bool) (thr : Nat) (api : Linked.StrApi) (ops : List Op) : N
 
 def zcLen (zc : Bool) (thr : Nat) (api : Linked.StrApi) : Op → Nat
   | .bytes bs => if Linked.takesZc false zc thr api bs.length then bs.length else 0
+  | .msgBegin name _ _ => if Linked.takesZc false zc thr .faststr name.length then name.length else 0
   | _ => 0
 
 /-- a LinkedBytes whose current buffer holds `pre` and has `cap` spare bytes, window = the spare capacity. -/
